@@ -51,7 +51,7 @@ CLAIMED = {
              "the offset walk assigns to the j-th scheduled sample start + the sum of the sizes before it; every table entry i resolves (generic chunk walk of the Spec reader + slice) to exactly "
              "frame i's bytes in the written file, for both layouts, with and without audio; the sample ranges are pairwise disjoint, inside the media data and cover it exactly; one-chunk and "
              "one-sample-per-chunk stsc shapes are resolved by the generic walk. End to end (C01_e2e) and for every history of write calls on a fresh writer (C01_history): the independent reader, applied to the bytes handed to the sink, returns for track 0 exactly the re-framed submitted bytes and key flags of the accepted video calls in order, for track 1 the raw payloads of the accepted audio calls; the re-framed bytes parse back to the submitted units (C14, C01_history_units). Correspondence on (bytes, sync, offset, size) per sample; the Spec reader "
-             "dereferences every sample of the implementation's file and compares with the submitted frames (small-scope exhaustive histories + random histories incl. B-frames with audio).",
+             "dereferences every sample of the implementation's file and compares with the submitted frames (small-scope exhaustive histories + random histories incl. B-frames with audio). Mp4Writer::write_video_sample_with_dts and write_audio_sample are TRANSLATED from src/muxer/mp4.rs on every run (tools/rs2lean_writer.py) and proved equal to the model's Writer.writeVideo / writeAudio for every state and argument (Props/C05Generated.lean).",
         note=TB + "Found and fixed in /repo: stco indexed in decode order but pushed in PTS-schedule order (known_findings.json).",
         technique="Lean 4 proof (mergeSort permutation/sublist lemmas, prefix-sum induction, reader∘writer on the model) + correspondence check",
         ref="DESIGN.md section 5 C01"),
@@ -59,7 +59,7 @@ CLAIMED = {
         text="Kernel-checked: writer invariant (strictly increasing video DTS / non-decreasing audio PTS, every non-newest sample carries the exact next-minus-this delta, deltas fit 32 bits, "
              "|pts-dts| fits i32) holds initially and is preserved by every API call; the durations written are exactly the consecutive DTS differences followed by the previous interval; telescoping: "
              "the decode time of sample k is dts_k - dts_0 for every k (no drift), also stated over histories of calls (C03_history_video/_audio: the times read back from the file are the submitted times of the accepted calls); rle tables expand back exactly; composition offsets are exactly pts-dts and ctts is present iff one is non-zero; "
-             "mdhd holds the exact sum of durations and finalize refuses sums above 2^32-1; accepted API calls queue F64.ticks of their arguments. Correspondence on expanded stts/ctts/mdhd incl. long runs. SampleTables::from_samples is TRANSLATED from src/muxer/mp4.rs on every run (tools/rs2lean_tables.py) and proved equal to the model's Tables.ofSamples (Props/C03Generated.lean).",
+             "mdhd holds the exact sum of durations and finalize refuses sums above 2^32-1; accepted API calls queue F64.ticks of their arguments. Correspondence on expanded stts/ctts/mdhd incl. long runs. SampleTables::from_samples is TRANSLATED from src/muxer/mp4.rs on every run (tools/rs2lean_tables.py) and proved equal to the model's Tables.ofSamples (Props/C03Generated.lean). Mp4Writer::write_video_sample_with_dts and write_audio_sample are TRANSLATED likewise (tools/rs2lean_writer.py) and proved equal to the model's Writer.writeVideo / writeAudio (Props/C05Generated.lean).",
         note=TB + "tick = (secs*90000.0).round() as modelled by the soft-float (validated against the FPU by the correspondence run).",
         technique="Lean 4 proof (state-machine invariant by induction over calls, telescoping sums) + correspondence check",
         ref="DESIGN.md section 5 C03"),
@@ -68,14 +68,14 @@ CLAIMED = {
              "write/finish reply is ok exactly when the Spec.Contract violation list of that call is empty, and every error names a precondition that the call violated (explains). The soft-float "
              "facts used (monotone ticks, lt/le duality, range test equivalence on genuine doubles) are proved; the scanner hypothesis is discharged by C14_split. Builder half (Props/C04Builder.lean): for every sequence of builder "
              "calls build succeeds iff some call configured video and no Opus track above 255 channels is left, and MissingVideoConfig is reported iff no video call was made. "
-             "Correspondence + oracle: the implementation's accept/reject decisions and error variants are judged against Spec.Contract computed from the history of the implementation's own replies. The guard prefixes of write_video / write_video_with_dts / write_audio and the error table convert_mp4_error are TRANSLATED from src/api.rs on every run (tools/rs2lean_guards.py) and proved to decide as the model does (Props/C04Generated.lean).",
+             "Correspondence + oracle: the implementation's accept/reject decisions and error variants are judged against Spec.Contract computed from the history of the implementation's own replies. The guard prefixes of write_video / write_video_with_dts / write_audio and the error table convert_mp4_error are TRANSLATED from src/api.rs on every run (tools/rs2lean_guards.py) and proved to decide as the model does (Props/C04Generated.lean). Mp4Writer::write_video_sample_with_dts and write_audio_sample are TRANSLATED likewise (tools/rs2lean_writer.py) and proved equal to the model's Writer.writeVideo / writeAudio (Props/C05Generated.lean).",
         note=TB + "Residual explicit hypotheses in the theorems: timestamps are decodings of 64-bit patterns (IsDouble), converted payload and file below 4 GiB (VideoSizeOk/AudioSizeOk/NoSizeLimit), NoStraddle (now unnecessary).",
         technique="Lean 4 proof (refinement to an abstract history with a 22-field invariant) + correspondence check",
         ref="DESIGN.md section 5 C04"),
     "C05": dict(
         text="Kernel-checked: every frame-writing call (five entry points) that replies an error returns a muxer state structurally EQUAL to its input; by induction, running a call list with the "
              "rejected frame-writing calls removed yields the same final state and the same replies at the kept positions, hence the same file and statistics for any sink; no frame-writing call "
-             "panics in the model. Correspondence: twin execution on the real library (history vs history without its rejected calls) must give identical replies, stats and bytes.",
+             "panics in the model. Correspondence: twin execution on the real library (history vs history without its rejected calls) must give identical replies, stats and bytes. Mp4Writer::write_video_sample_with_dts and write_audio_sample are TRANSLATED from src/muxer/mp4.rs on every run (tools/rs2lean_writer.py) and proved equal to the model's Writer.writeVideo / writeAudio for every state and argument (Props/C05Generated.lean). Restated on the translated functions: C05_gen_video_refusal_no_trace / C05_gen_audio_refusal_no_trace.",
         note=TB + "Found and fixed in /repo: first_video_pts recorded before acceptance; audio duration back-patched before validation.",
         technique="Lean 4 proof (case analysis per call + induction over the call list) + twin-run correspondence",
         ref="DESIGN.md section 5 C05"),
@@ -111,7 +111,7 @@ CLAIMED = {
     "C09": dict(
         text="Kernel-checked: what the file says (stts/ctts, no edit list) is audioPT_k - videoPT_0 = (a_k - a_0) - (pts_0 - dts_0); the property's claim holds exactly when the first audio timestamp "
              "equals the first video decode timestamp (C09_partial) and fails otherwise with error dts_0 - a_0 (C09_error); C09_counterexample(_api) exhibits video at 0 s + audio at 0.5 s (45000 ticks). "
-             "The unchanged code violates the property: recorded as known finding `no-edit-list` (needs an edts/elst feature). The check reports it as KNOWN-FINDING and would report any other deviation.",
+             "The unchanged code violates the property: recorded as known finding `no-edit-list` (needs an edts/elst feature). The check reports it as KNOWN-FINDING and would report any other deviation. Mp4Writer::write_video_sample_with_dts and write_audio_sample are TRANSLATED from src/muxer/mp4.rs on every run (tools/rs2lean_writer.py) and proved equal to the model's Writer.writeVideo / writeAudio for every state and argument (Props/C05Generated.lean).",
         note=TB + "Oracle understands edts/elst so that a future repair is recognised.",
         technique="Lean 4 proof of the partial statement + kernel-checked counterexample; correspondence check; finding recorded",
         ref="DESIGN.md section 5 C09"),
